@@ -48,21 +48,49 @@ class SPure(PureScheduler):
         PureScheduler.__init__(self, *jobs, **kw)
 
 
-class Loops(Exception):
+class Loops(BaseException):
+    """a call of the library does not come back (confirmed by a line count, see bounded)"""
+
+
+class _Alarm(KeyboardInterrupt):
     pass
 
 
 @contextlib.contextmanager
 def time_limit(seconds):
+    """raise _Alarm inside the block after `seconds` of wall clock; nests inside the
+    campaign's own watchdog (the outer alarm is re-armed on exit)"""
+    import time
+
     def handler(signum, frame):
-        raise Loops()
+        raise _Alarm()
     old = signal.signal(signal.SIGALRM, handler)
-    signal.alarm(seconds)
+    t0 = time.time()
+    outer = signal.alarm(seconds)
     try:
         yield
     finally:
         signal.alarm(0)
         signal.signal(signal.SIGALRM, old)
+        if outer:
+            signal.alarm(max(1, int(outer - (time.time() - t0))))
+
+
+def bounded(fn, seconds=10, budget=10**8):
+    """fn() - a read-only query of the library on a small graph.  The wall clock is only a
+    trigger: when fn() has not returned after `seconds`, it is called again, in a child process, under a counter
+    of the lines executed inside the asynciojobs package; more than `budget` lines (the
+    largest generated case needs about 7 * 10**6 in all) => Loops, fewer => its value."""
+    from .campaign import exceeds_budget_in_child
+    try:
+        with time_limit(seconds):
+            return fn()
+    except _Alarm:
+        pass
+    exceeded, _, _ = exceeds_budget_in_child(lambda _: fn(), None, budget, want_result=False)
+    if exceeded:
+        raise Loops()
+    return fn()             # merely slow: it does come back
 
 
 @contextlib.contextmanager
